@@ -16,7 +16,7 @@ RULE = ("plan = left frame + right frame (0..8 rows each quick / 0..20 thorough;
         "(lowest right row whose key cells are all non-missing and equal); exact expectation for left/inner/semi/anti, validity "
         "predicate for full_join. Non-trivial: both sides non-empty and (a duplicate right key that matches, or a missing key on "
         "either side, or a renamed key, or 2 key columns, or an unmatched row on each side). Distinct = plan hash.")
-CASES = {"quick": 1200, "thorough": 6000}
+CASES = {"quick": 1200, "thorough": 12000}
 
 KEY_KINDS = ["b", "i", "f", "s", "s", "u", "d", "t", "o", "oi"]
 PAY_KINDS = ["f", "i", "b", "s", "d", "o"]
